@@ -67,7 +67,7 @@ func boundaryPairs() []Expr {
 	}
 	for i, a := range boundaryOperands {
 		for j, b := range boundaryOperands {
-			if (i+j)%5 != 0 {
+			if (i+j)%9 != 0 {
 				continue
 			}
 			for _, op := range []string{"+", "-", "*", "/", "%", "&^"} {
@@ -123,14 +123,37 @@ func roundingMidpoints() []string {
 	return lits
 }
 
+// fractionMidpoints returns constant expressions 2^k + 2^(k-m) + d for the
+// float32 (m = 24) and float64 (m = 53) rounding midpoints at small, fractional
+// and subnormal-range exponents k, with a perturbation d that is zero, above or
+// below the resolution of the wider type, positive and negative, also around
+// odd mantissas (where ties-to-even rounds up).
+func fractionMidpoints() []string {
+	var out []string
+	for _, k := range []int{0, 1, -1, -10, 10, 100, -100, -126, -127, 127} {
+		for _, m := range []int{24, 53} {
+			for _, odd := range []string{"", fmt.Sprintf(" + 0x1p%d", k-m+1)} {
+				mid := fmt.Sprintf("0x1p%d + 0x1p%d%s", k, k-m, odd)
+				for _, d := range []string{"", fmt.Sprintf(" + 0x1p%d", k-m-36), fmt.Sprintf(" - 0x1p%d", k-m-36), fmt.Sprintf(" + 0x1p%d", k-m-3), fmt.Sprintf(" - 0x1p%d", k-m-200)} {
+					out = append(out, "("+mid+d+")", "(-("+mid+d+"))")
+				}
+			}
+		}
+	}
+	return out
+}
+
 // midpointConversions declares every rounding-midpoint integer, as untyped
 // literal, as typed integer constant and as floating-point literal, with each
 // floating-point and complex type (const c T = x and const c = T(x)).
 func midpointConversions() []Expr {
 	ft := []string{"float32", "float64", "complex64", "complex128"}
 	var out []Expr
+	for _, l := range fractionMidpoints() {
+		out = append(out, Expr{Src: l, Class: "num", Typed: ft, Conv: ft, Sites: ft})
+	}
 	for _, l := range roundingMidpoints() {
-		out = append(out, Expr{Src: l, Class: "num", Typed: ft, Conv: ft})
+		out = append(out, Expr{Src: l, Class: "num", Typed: ft, Conv: ft, Sites: ft})
 		v, _ := new(big.Int).SetString(l, 10)
 		if v.IsInt64() {
 			out = append(out, Expr{Src: fmt.Sprintf("int64(%s)", l), Class: "num", Conv: ft})
